@@ -315,9 +315,68 @@ def collapse(seq):
     return out
 
 
+def run_callables(case):
+    """cond/unless entries given as callables: passed directly (cond=[f, g]) or attached with the @event.cond / @event.unless
+    decorators to an event that has SEVERAL transitions; every transition of the event must honour every entry."""
+    Hd = Holder()
+    fired = []
+    uid = next(UID)
+    names_c, names_u, how = case["cond_names"], case["unless_names"], case["how"]
+    fns = {}
+    for n in names_c + names_u:
+        def f(self, _n=n):
+            Hd.reads.append(_n)
+            return Hd.val[_n]
+        f.__name__ = n
+        f.__qualname__ = f"CG{uid}.{n}"
+        fns[n] = f
+    s1, s2, s3 = State(initial=True), State(), State()
+    body = {"s1": s1, "s2": s2, "s3": s3}
+    with warnings.catch_warnings():
+        warnings.simplefilter("ignore")
+        if how == "kwargs":
+            kw = {}
+            if names_c:
+                kw["cond"] = [fns[n] for n in names_c]
+            if names_u:
+                kw["unless"] = [fns[n] for n in names_u]
+            go = s1.to(s2, **kw) | s2.to(s3, **kw) | s3.to(s3, **kw)
+        else:
+            go = s1.to(s2) | s2.to(s3) | s3.to(s3)
+            for n in names_c:
+                go.cond(fns[n])
+            for n in names_u:
+                go.unless(fns[n])
+        body.update(fns)
+        body["go"] = go
+        body["reset"] = s2.to(s1) | s3.to(s1) | s1.to(s1)
+        body["after_go"] = lambda self: fired.append(1)
+        try:
+            cls = types.new_class(f"CG{uid}", (StateMachine,), {}, lambda d: d.update(body))
+            sm = cls(allow_event_without_transition=True)
+        except Exception as e:
+            return outcome(False, "C08:crash-at-instantiation", f"callable guards {names_c} / unless {names_u} ({how}): {type(e).__name__}: {e}")
+    labels = {"callable-guards:" + how}
+    for env in case["valuations"]:
+        Hd.val = {k: dec(v) for k, v in env.items()}
+        want = all(bool(Hd.val[n]) for n in names_c) and not any(bool(Hd.val[n]) for n in names_u)
+        for start in ("s1", "s2", "s3"):
+            sm.current_state = getattr(sm, start)
+            del fired[:]
+            try:
+                sm.send("go")
+            except Exception as e:
+                return outcome(False, "C08:crash-at-send", f"callable guards ({how}) from {start}: {type(e).__name__}: {e}", labels=labels)
+            if bool(fired) != want:
+                return outcome(False, "C08:wrong-truth-value", f"callable guards cond={names_c} unless={names_u} attached with {how}: from {start} with {Hd.val!r} fired={bool(fired)}, expected {want}", labels=labels)
+    return outcome(True, nontrivial=bool(names_u) or len(names_c) > 1, labels=labels, stats={"valuations": len(case["valuations"])})
+
+
 def run_case(case):
     if case["kind"] == "negative":
         return run_negative(case)
+    if case["kind"] == "callables":
+        return run_callables(case)
     cond, unless = case.get("cond", []), case.get("unless", [])
     providers, kinds = case["providers"], case["kinds"]
     labels = set()
@@ -568,8 +627,16 @@ def negative(draw, tier):
 FUZZ_RUNS = {"thorough": 4000}  # libFuzzer runs per shard of the coverage-guided sub-engine (vcheck/fuzz.py)
 
 
+@st.composite
+def callables(draw, tier):
+    names = draw(st.lists(st.sampled_from(BOOL_NAMES), min_size=1, max_size=3, unique=True))
+    k = draw(st.integers(0, len(names)))
+    vals = [{n: draw(st.sampled_from(ANY_VALUES)) for n in names} for _ in range(5)]
+    return {"kind": "callables", "cond_names": names[:k], "unless_names": names[k:], "how": draw(st.sampled_from(["kwargs", "decorators", "decorators"])), "valuations": vals}
+
+
 def strategy(tier):
-    return st.one_of(positive(tier), positive(tier), positive(tier), negative(tier))
+    return st.one_of(positive(tier), positive(tier), positive(tier), positive(tier), negative(tier), callables(tier))
 
 
 def budget(tier):
